@@ -12,7 +12,7 @@ if [ -n "${SEED_SNAP:-}" ]; then
 fi
 cd /repo || exit 2
 if [ -n "$(git status --porcelain)" ]; then echo "/repo not clean" >&2; exit 2; fi
-git apply "$PATCH" 2>/dev/null || { git apply --3way "$PATCH" >/dev/null 2>&1 && git reset -q && ! grep -rlq "^<<<<<<< " --include=*.go --include=*.peg . ; } || { git checkout -- . ; echo "patch does not apply" >&2; exit 2; }   # (3-way: a seed written before a later fix: touched the same file)
+git apply "$PATCH" 2>/dev/null || { git apply --3way "$PATCH" >/dev/null 2>&1 && git reset -q && ! grep -rlq "^<<<<<<< " --include=*.go --include=*.peg . ; } || { git reset -q --hard HEAD ; echo "patch does not apply" >&2; exit 2; }   # (3-way: a seed written before a later fix: touched the same file)
 trap 'cd /repo && git checkout -- . && git clean -fdq -- . >/dev/null 2>&1' EXIT
 LOG=$(mktemp)
 for ID in "$@"; do
